@@ -23,7 +23,9 @@ func TestMain(m *testing.M) {
 		"bounded-exhaustive enumeration (every history of every length up to the stated depth, each judged at its end, extensions of a violating history skipped) plus seeded random walks; " +
 		"circuit-ids: generated families up to 64 bytes (prefix chains, trailing-NUL variants, single-byte differences at every position, structured OLT-style ids, random) compared pairwise through the real key functions and through real kernel hash maps; " +
 		"distinct_nontrivial hashes enumerated histories up to length 5 and every walk; longer enumerated histories are distinct by construction and appear in the observed *_histories_with_* counters and in nontrivial_histories_not_hashed only; " +
-		"non-trivial = distinct history in which a key changed holder (released/moved and obtained again), or two live objects carried the same key, or the PPPoE id counter wrapped, or (circuit-ids) a family in which at least one pair of distinct ids was compared")
+		"PPPoE session states: the same id histories with sessions left in the table in each of the seven session states (exported setter; SessionTeardown with a failing/succeeding fast-path update; and through pppoe.Server's receive loop: PADR, LCP Configure-Ack, PAP rejected/accepted by a loopback RADIUS server, IPCP Configure-Ack, PADT, LCP Terminate-Request) while the id counter wraps or is placed just below an id that is in the table; " +
+		"non-trivial = distinct history in which a key changed holder (released/moved and obtained again), or two live objects carried the same key, or the PPPoE id counter wrapped (for the state histories: wrapped/came round and a session state was changed), or (circuit-ids) a family in which at least one pair of distinct ids was compared")
+	run.Assume("placing the PPPoE id counter (hook) stands for the creations and removals by other stations that bring it there; TestPPPoERealWrap reaches the wrap without the hook")
 	run.Assume("components are driven sequentially (the property quantifies over histories and inputs, not schedules)")
 	run.Assume("subscriber.Manager is given a correct address allocator by the harness (addresses unique among live sessions, released on request)")
 	run.Assume("FNV-1a 64-bit collisions cannot be produced by search; the hash-keyed circuit_id_map is exercised with collision-free universes and its collision detector with same-id/different-MAC probes only")
@@ -36,6 +38,15 @@ func TestMain(m *testing.M) {
 	} {
 		run.Floor(k, n)
 	}
+	// session-state dimension: the free-id search met ids held by sessions in every state after a wrap
+	for _, st := range allStates {
+		run.Floor("pppoe_search_after_wrap_met_id_held_in_state_"+stateName(st), 300)
+	}
+	run.Floor("pppoe_state_exhaustive_histories", 100000)
+	run.Floor("pppoe_histories_with_state_changes_and_wrap", 10000)
+	run.Floor("pppoe_server_state_cases", 100)
+	run.Floor("pppoe_server_failed_pap_left_closed_session_in_table", 50)
+	run.Floor("pppoe_server_counter_comes_round_to_state_Closed", 20)
 	code := m.Run()
 	flushViolations()
 	ec := run.Finish()
